@@ -45,6 +45,11 @@ func TestDialPolicyDoH(t *testing.T) {
 		rrHTTPS("deadplain.example", 60, 1, "void.example", svcParams{ALPN: []string{"h2"}}),
 		rrHTTPS("deadplain.example", 60, 2, "", svcParams{ECH: polLists["E2"]}),
 		rrA("deadplain.example", 60, "10.7.0.1"),
+		// mixed: a service-mode record followed (on the wire) by an alias-mode record "0 ." that carries parameters of its
+		// own: alias records produce no target and their parameters are ignored
+		rrHTTPS("mixed.example", 60, 1, "", svcParams{ECH: polLists["E1"]}),
+		rrHTTPS("mixed.example", 60, 0, "", svcParams{ECH: polLists["E2"]}),
+		rrA("mixed.example", 60, "10.8.0.1"),
 		// noech: service record without ech
 		rrHTTPS("noech.example", 60, 1, "", svcParams{ALPN: []string{"h2"}}),
 		rrA("noech.example", 60, "10.5.0.1"),
@@ -54,11 +59,11 @@ func TestDialPolicyDoH(t *testing.T) {
 	// address -> abstract ECH value its record carries
 	recECH := map[string]string{
 		"10.1.0.1:443": "nil", "10.2.0.9:8441": "E1", "10.2.0.1:8442": "E2", "10.3.0.1:443": "E1", "10.4.0.1:443": "nil", "10.5.0.1:443": "nil",
-		"10.6.0.1:8452": "E2", "10.7.0.1:443": "E2",
+		"10.6.0.1:8452": "E2", "10.7.0.1:443": "E2", "10.8.0.1:443": "E1",
 	}
 	w := newNDWriter(t, out)
 	defer w.Close()
-	for _, host := range []string{"plain.example", "svc.example", "aliased.example", "cnamed.example", "noech.example", "deadtarget.example", "deadplain.example"} {
+	for _, host := range []string{"plain.example", "svc.example", "aliased.example", "cnamed.example", "noech.example", "deadtarget.example", "deadplain.example", "mixed.example"} {
 		for _, form := range []string{"host", "hostport"} {
 			for _, csn := range []string{"", "caller-sn.example"} {
 				for _, cech := range []string{"nil", "Ec"} {
